@@ -17,6 +17,7 @@ from dissect.cstruct.types.base import (
     _is_buffer_type,
     _is_readable_type,
 )
+from dissect.cstruct.types.char import Char
 from dissect.cstruct.types.enum import EnumMetaType
 from dissect.cstruct.types.pointer import Pointer
 
@@ -41,6 +42,13 @@ class Field:
     def __repr__(self) -> str:
         bits_str = f" : {self.bits}" if self.bits else ""
         return f"<Field {self.name} {self.type.__name__}{bits_str}>"
+
+
+def _default(field: Field) -> Any:
+    """The default value of a field. A char bit field holds an integer, like the value that is read for it."""
+    if field.bits and issubclass(field.type, Char):
+        return 0
+    return field.type.__default__()
 
 
 class StructureMetaType(MetaType):
@@ -353,7 +361,7 @@ class StructureMetaType(MetaType):
 
             value = getattr(data, field._name, None)
             if value is None:
-                value = field_type.__default__()
+                value = _default(field)
 
             if field.bits:
                 if isinstance(field_type, EnumMetaType):
@@ -816,7 +824,7 @@ def _generate_structure__init__(fields: list[Field]) -> FunctionType:
     template: FunctionType = _make_structure__init__(len(field_names))
     return type(template)(
         template.__code__.replace(
-            co_consts=(None, *[field.type.__default__() for field in fields]),
+            co_consts=(None, *[_default(field) for field in fields]),
             co_names=(*field_names,),
             co_varnames=("self", *field_names),
         ),
@@ -838,7 +846,7 @@ def _generate_union__init__(fields: list[Field]) -> FunctionType:
         template.__code__.replace(
             co_consts=(
                 None,
-                *sum([(field._name, field.type.__default__()) for field in fields], ()),
+                *sum([(field._name, _default(field)) for field in fields], ()),
             ),
             co_varnames=("self", *field_names),
         ),
